@@ -4,6 +4,8 @@
 #include <pika/semaphore.hpp>
 #include <pika/synchronization/sliding_semaphore.hpp>
 
+#include <limits>
+
 #include <chrono>
 
 using namespace vh;
@@ -322,7 +324,12 @@ namespace {
     {
         pk::draw_runtime(ctx, 5);
         Rng r(mix_seed(ctx.seed, 33));
-        int64_t maxdiff = ctx.params.set("c08.max_diff", r.range(1, 4));
+        // one run in five: an "unlimited" window (max_difference at or near INT64_MAX)
+        bool huge = r.chance(1, 5);
+        int64_t maxdiff = ctx.params.set("c08.max_diff",
+            huge ? (r.chance(1, 2) ? std::numeric_limits<int64_t>::max() : std::numeric_limits<int64_t>::max() - 100) : r.range(1, 4));
+        huge = maxdiff > 1000;
+        if (huge) probe("sliding.huge_window");
         int nw = (int) ctx.params.set("c08.waiters", r.range(1, 5));
         int64_t os_mask = ctx.params.set("c08.os_mask", r.chance(1, 2) ? (int64_t) r.below(32) : 0);
         // program: op = [party, kind(1 wait,2 try_wait,3 signal), value, yields]
@@ -336,6 +343,8 @@ namespace {
                 op.v[0] = (int64_t) r.below((uint64_t) nw + 1);    // party nw = signaller
                 op.v[1] = op.v[0] == nw ? 3 : (r.chance(3, 4) ? 1 : 2);
                 op.v[2] = r.range(0, 12);
+                // with a huge window small upper limits never block: half of the waits ask for max_difference + k
+                if (huge && op.v[1] != 3 && maxdiff < std::numeric_limits<int64_t>::max() && r.chance(1, 2)) op.v[2] += maxdiff;
                 op.v[3] = r.range(0, 3);
                 p.push_back(op);
             }
